@@ -42,10 +42,16 @@ def cases(draw):
         base["kind"] = "interstitial"
         base["extreme"] = extreme
         return base
-    setup = draw(vs.setups())
+    from ..core import known_ids
+    setup = draw(vs.setups(originstates="no" if "R11" in known_ids("known") else "any"))
     crys, sl, jn, calc = vs.calculator(setup)
     extreme = draw(st.booleans())
-    data = draw(vs.datasets(calc, sol=not vs_exclude_r1(), om2shift=(draw(st.sampled_from([-18., -9., 9.])) if extreme else 0.), spread=1.0))
+    shifts = [-18., -9., 9.]
+    if "R13" in known_ids("known"):
+        from . import c08
+        if c08.om2_joins_inequivalent_sites(calc):
+            shifts = [9.]   # large omega2 on such crystals is known finding R13 (reported under C08)
+    data = draw(vs.datasets(calc, sol=not vs_exclude_r1(), om2shift=(draw(st.sampled_from(shifts)) if extreme else 0.), spread=1.0))
     return {"kind": "vacancy", "setup": setup, "data": data, "extreme": extreme}
 
 
@@ -142,6 +148,8 @@ def check(case):
         raise HarnessError("stale case")
     G = list(crys.G)
     classes = cs.describe(crys) + vs.describe(calc, data) + ["vacancy"] + (["extreme"] if case["extreme"] else [])
+    if case["setup"].get("redrawn"):
+        classes.append("excluded_R11_redrawn")
     tol = 1e-7
 
     asym_ok = antisymmetric_allowed(G)
